@@ -83,6 +83,12 @@ def mk_interp(it):
             if not it.ctx.branch(ok):
                 raise PyRaise(it.make_exc("RuntimeError", "panic: return of an element that is out of bounds or not borrowed"))
             return ArrVal(z3.Store(arr.contents, u, v), z3.Store(arr.lent, u, False), arr.n)
+        if kind == "imod_s":
+            a, b = wires
+            return z3.If(b > 0, a % b, a)          # signed modulo with a positive divisor: result in [0, b)
+        if kind in ("iadd", "isub"):
+            a, b = wires
+            return a + b if kind == "iadd" else a - b
         raise Unsupported(f"op {kind}")
 
     def unwrap_right(builder, val, msg, *rest):
@@ -90,7 +96,10 @@ def mk_interp(it):
         if not it.ctx.branch(ok):
             raise PyRaise(it.make_exc("RuntimeError", "panic: " + msg))
         return Node(list(payload))
-    return SObj(ClassVal("InterpBuilder", builtin=True), {"add_op": Builtin("add_op", add_op)}), unwrap_right, log
+    def load(v):
+        # constants: the harness hands integer constants over as z3 terms / ints
+        return v if z3.is_expr(v) else z3.IntVal(v) if isinstance(v, int) else v
+    return SObj(ClassVal("InterpBuilder", builtin=True), {"add_op": Builtin("add_op", add_op), "load": Builtin("load", load)}), unwrap_right, log
 
 
 def run(chk):
@@ -106,7 +115,32 @@ def run(chk):
     chk.not_covered += ["iteration (ArrayIter.__next__), comprehensions (visit_DesugaredArrayComp) and copy(); the borrow-array runtime itself"]
 
 
+class Pfx:
+    """forwards to the Check, prefixing obligation names"""
+
+    def __init__(self, chk, p):
+        self._chk, self._p = chk, p
+
+    def prove_paths(self, name, *a, **k):
+        return self._chk.prove_paths(self._p + name, *a, **k)
+
+    def record(self, name, *a, **k):
+        return self._chk.record(self._p + name, *a, **k)
+
+    def must_fail(self, name, *a, **k):
+        return self._chk.must_fail(self._p + name, *a, **k)
+
+    def __getattr__(self, n):
+        return getattr(self._chk, n)
+
+
 def access(chk):
+    # the compiler sees the array length either as a generic size argument or as a static number
+    _access(Pfx(chk, "[generic length] "), False)
+    _access(Pfx(chk, "[static length] "), True)
+
+
+def _access(chk, static):
     e = mk_engine(chk)
     for q in ("ArrayGetitemCompiler._build_classical_getitem", "ArrayGetitemCompiler._build_linear_getitem", "ArrayGetitemCompiler.compile_with_inouts",
               "ArraySetitemCompiler._build_classical_setitem", "ArraySetitemCompiler._build_linear_setitem", "ArraySetitemCompiler.compile_with_inouts"):
@@ -121,6 +155,13 @@ def access(chk):
     j = z3.Int("j")
     pre = [n >= 0, n < 2 ** 63, i >= -(2 ** 63), i < 2 ** 63]
 
+    BNA = ClassVal("BoundedNatArg", builtin=True)
+    e.ext_models["hugr.tys.BoundedNatArg"] = BNA
+    e.ext_models["hugr.std.int.IntVal"] = lambda it, a, k: a[0].t if isinstance(a[0], SInt) else a[0]
+    e.models["guppylang_internals.std._internal.compiler.arithmetic:_instantiate_int_op"] = lambda it, a, k: (a[0],)
+    static_len = [static]
+    e.global_presets = {("guppylang_internals.std._internal.compiler.arithmetic", "INT_T"): "INT_T"}
+
     def setup(it, cls, copyable):
         m = e.module(AR)
         C = it.lookup_global(m, cls)
@@ -130,7 +171,9 @@ def access(chk):
         TA = it.lookup_global(e.module("guppylang_internals.tys.arg"), "TypeArg")
         CA = it.lookup_global(e.module("guppylang_internals.tys.arg"), "ConstArg")
         gty = SObj(ClassVal("GuppyTy", builtin=True), {"copyable": copyable, "to_hugr": Builtin("to_hugr", lambda *a: HT)})
-        const = SObj(ClassVal("Const", builtin=True), {"to_arg": Builtin("to_arg", lambda: SObj(ClassVal("Arg", builtin=True), {"to_hugr": Builtin("to_hugr", lambda *a: "N")}))})
+        # the array length as the compiler sees it: a generic size argument, or a statically known one
+        length_arg = SObj(BNA, {"n": SInt(n)}) if static_len[0] else "N"
+        const = SObj(ClassVal("Const", builtin=True), {"to_arg": Builtin("to_arg", lambda: SObj(ClassVal("Arg", builtin=True), {"to_hugr": Builtin("to_hugr", lambda *a: length_arg)}))})
         targs = [SObj(TA, {"ty": gty}), SObj(CA, {"const": const})]
         self_ = SObj(C, {"type_args": targs, "ctx": None, "builder": builder, "dfg": None, "node": None, "func": None})
         for c in pre:
@@ -156,7 +199,7 @@ def access(chk):
     chk.prove_paths("array.__getitem__[copyable]:0<=i<n=>element-i/\\array-unchanged;otherwise(negative-or->=n)=>panic('Array index out of bounds')", paths,
                     lambda p: (z3.And(in_range, w0(p.value[0][0]) == z3.Select(contents, i), frame_same(a0, p.value[1][0])) if p.kind == "return"
                                else z3.And(z3.Not(in_range), z3.BoolVal(is_panic(p, "Array index out of bounds")))),
-                    func=f"{AR}:ArrayGetitemCompiler._build_classical_getitem")
+                    func=f"{AR}:ArrayGetitemCompiler._build_classical_getitem", replay=lambda m_: {"script": REPLAY_ACCESS, "input": {"kind": "get"}})
     chk.record("array.__getitem__[copyable]:both-outcomes-reachable", {p.kind for p in paths} == {"return", "raise"}, str([p.kind for p in paths]), kind="reachability")
     # ---- classical set
     def t_cset(it):
@@ -167,7 +210,7 @@ def access(chk):
     chk.prove_paths("array.__setitem__[copyable]:0<=i<n=>element-i-replaced/\\every-other-element-unchanged;otherwise=>panic", paths,
                     lambda p: (z3.And(in_range, z3.Select(p.value[1][0].contents, i) == v, frame_same(a0, p.value[1][0], i), z3.BoolVal(p.value[0] == [])) if p.kind == "return"
                                else z3.And(z3.Not(in_range), z3.BoolVal(is_panic(p, "Array index out of bounds")))),
-                    func=f"{AR}:ArraySetitemCompiler._build_classical_setitem")
+                    func=f"{AR}:ArraySetitemCompiler._build_classical_setitem", replay=lambda m_: {"script": REPLAY_ACCESS, "input": {"kind": "set"}})
     # ---- linear get (lend)
     def t_lget(it):
         s, log = setup(it, "ArrayGetitemCompiler", False)
@@ -279,6 +322,40 @@ def unpacking(chk):
     chk.record("StmtCompiler._assign_array:all-pattern-shapes-explored", count >= 36, str(count), kind="reachability")
     chk.use_engine(e)
 
+
+REPLAY_ACCESS = r'''
+import os, sys, tempfile, importlib.util, shutil
+# every out-of-range index (negative ones included) must panic; in-range ones touch element i only
+cases = [(-1, True), (4, True), (-4, True), (7, True), (0, False), (3, False)]
+src = "from guppylang import guppy\nfrom guppylang.std.builtins import array, result\n"
+for k, (i, _) in enumerate(cases):
+    if INPUT["kind"] == "get":
+        src += f"@guppy\ndef m{k}(i: int) -> None:\n    xs = array(10, 20, 30, 40)\n    result('v', xs[i])\n@guppy\ndef main{k}() -> None:\n    m{k}({i})\n"
+    else:
+        src += f"@guppy\ndef m{k}(i: int) -> None:\n    xs = array(10, 20, 30, 40)\n    xs[i] = 99\n    result('a', xs[0]); result('b', xs[1]); result('c', xs[2]); result('d', xs[3])\n@guppy\ndef main{k}() -> None:\n    m{k}({i})\n"
+d = tempfile.mkdtemp(dir=os.environ.get("TMPDIR", "/var/tmp")); fn = os.path.join(d, "c19a.py"); open(fn, "w").write(src)
+spec = importlib.util.spec_from_file_location("c19a", fn); m = importlib.util.module_from_spec(spec); sys.modules["c19a"] = m
+bad = []
+try:
+    spec.loader.exec_module(m)
+    for k, (i, must_panic) in enumerate(cases):
+        try:
+            res = getattr(m, f"main{k}").emulator(n_qubits=1).run()
+            vals = [list(x) for x in list(res.results)[0]]
+            panicked = False
+        except Exception as ex:
+            panicked, vals = True, repr(ex)[:80]
+        if must_panic and not panicked: bad.append(f"index {i} on a 4-element array did not panic: {vals}")
+        if not must_panic and panicked: bad.append(f"index {i} panicked: {vals}")
+        if not must_panic and not panicked:
+            want = [["v", [10, 20, 30, 40][i]]] if INPUT["kind"] == "get" else [[t, 99 if j == i else v] for j, (t, v) in enumerate(zip("abcd", [10, 20, 30, 40]))]
+            if vals != want: bad.append(f"index {i}: {vals} != {want}")
+    out = {"violates": bool(bad), "detail": bad}
+except Exception as ex:
+    out = {"violates": False, "error": repr(ex)[:300]}
+shutil.rmtree(d, ignore_errors=True)
+print(json.dumps(out))
+'''
 
 REPLAY_UNPACK = r'''
 import os, sys, tempfile, importlib.util, shutil
